@@ -108,6 +108,25 @@ def cycle(t: E.Tally, w, gwy, eav: bool, include_expired: bool, rep: dict, where
                 t.bad("C16:second-restore-changes-state", f"{where}: restoring the snapshot a second time: {r[0]}; packets {len(s2[1])}->{len(s3[1])}", rep)
         finally:
             w2.close()
+    # the snapshot taken the moment start(cached_packets=...) returns (no further turn of the event loop) is complete too
+    try:
+        w3 = G.GwyWorld()
+        w3.set_time(now)
+        g3 = w3.add_gateway(config={"disable_discovery": True, "enforce_known_list": False, "enable_eavesdrop": eav}, start=False, **dict(s1[0]))
+
+        async def start_and_snapshot():
+            await g3.start(cached_packets=dict(s1[1]))
+            return g3.get_state(include_expired=include_expired)
+
+        r3 = w3.run(start_and_snapshot(), horizon=60)
+        if r3[0] != "ok":
+            t.bad(f"C16:fresh-gateway-does-not-start:{r3[0]}:immediate", f"{where}: start(cached_packets) + get_state: {r3}", rep)
+        elif not same(s1[1], r3[1][1]):
+            lost = sorted(set(s1[1]) - set(r3[1][1]))
+            t.bad("C16:packets-not-a-fixpoint:snapshot-on-return-of-start" + (":last-packet" if lost == [max(s1[1])] else ""), f"{where} include_expired={include_expired}: {len(s1[1])} packets saved; get_state() called as soon as start(cached_packets=...) returned reports {len(r3[1][1])} (missing {[s1[1][k][4:40] for k in lost][:2]})", rep)
+        w3.close()
+    except Exception as e:  # noqa: BLE001
+        t.bad(f"C16:fresh-gateway-does-not-start:{type(e).__name__}:immediate", f"{where}: {str(e)[:160]}", rep)
     # restoring into the gateway that already holds that state changes nothing
     r = w.run(gwy._restore_cached_packets(dict(s1[1])), horizon=30)
     w.loop.quiesce(w.loop.time() + 2)
